@@ -14,7 +14,7 @@ CHECKS = {
                 note='Weight of a newly placed target = smallest series/total offered by any source (status answers, explorer), so the formula never demands more than the statement.',
                 tech='TLA+ cycle model + TLC outcome enumeration; replay on real Coordinator; TLC evaluation of formulas on observations'),
     'C05': dict(cat='model_checking', ref='5/C05',
-                text='Same pipeline as C01; formulas: an in-transfer source copy is removed only when a normal copy on another in-sync shard and the source both report >= 3 scrapes (README constant, independent of the code), and a copy newly marked in-transfer is paired with a normal copy posted to another in-sync shard in the same cycle.',
+                text='Cycle form: same pipeline as C01. History form: the closed loop of C03/C06 (real Coordinator + real sidecars, with faults) - the same formulas on every cycle the coordinator ran there, with the scrape counters the real sidecars reported, plus no-gap on the recorded worlds (a held, discovered target is never held by nobody after a step). Formulas: an in-transfer source copy is removed only when a normal copy on another in-sync shard and the source both report >= 3 scrapes (README constant, independent of the code), and a copy newly marked in-transfer is paired with a normal copy posted to another in-sync shard in the same cycle.',
                 note='Cycle form of the hand-over rule; the case of two in-transfer copies is outside the statement and excluded from the antecedent.',
                 tech='TLA+ cycle model + TLC outcome enumeration; replay on real Coordinator; TLC evaluation of formulas on observations'),
     'C07': dict(cat='model_checking', ref='5/C07',
@@ -85,7 +85,7 @@ CHECKS['C11'] = dict(cat='model_checking', ref='5/C11',
     tech='TLA+ slot model of marshal/restore; TLC enumeration; replay on real injector; field-wise comparison after config.Load; TLC evaluation')
 
 CHECKS['C03'] = dict(cat='model_checking', ref='5/C03',
-    text='spec/Kvass.tla is the closed loop of one replica: sidecar state records (Sidecar.tla operators), StatefulSet scale, the coordinator cycle as the step-by-step actions of Rebalance.tla fed from the sidecars\' reports and applied to them, scrape rounds, discovery, explorer estimates, target sizes / liveness, clock; it is model-checked exhaustively in a small configuration. Closed-loop runs on the REAL Coordinator with REAL sidecars (service, targets manager + store, injector, proxy; simulated Prometheus, StatefulSet, targets) follow seeded schedules (discovery, probes, cycles, scrape rounds, targets added / removed / growing / going down, then 10 quiet rounds); TLC validates every run step by step against Kvass.tla (KvassTrace: environment steps deterministic, a cycle must be able to end in the recorded world through some order of the coordinator\'s internal steps) and evaluates on the recorded worlds: converged at the end of the quiet tail (every eligible target on exactly one shard in normal state, no transfer pending, no undiscovered or oversized target assigned), the last cycle changes nothing, no gap in which a held, discovered target is held by nobody; and on every cycle the coordinator ran: an eligible unplaced target with all shards in sync makes the request exceed the current count.',
+    text='spec/Kvass.tla is the closed loop of one replica: sidecar state records (Sidecar.tla operators), StatefulSet scale, the coordinator cycle as the step-by-step actions of Rebalance.tla fed from the sidecars\' reports and applied to them, scrape rounds, discovery, explorer estimates, target sizes / liveness, clock; it is model-checked exhaustively in a small configuration: safety (no gap, also across the coordinator\'s own scale-downs) over every interleaving, and liveness - eventually converged for good - under weak fairness of the cycle and strong fairness of scrape rounds and probes. Closed-loop runs on the REAL Coordinator with REAL sidecars (service, targets manager + store, injector, proxy; simulated Prometheus, StatefulSet, targets) follow seeded schedules (discovery, probes, cycles, scrape rounds, targets added / removed / growing / going down, then 10 quiet rounds); TLC validates every run step by step against Kvass.tla (KvassTrace: environment steps deterministic, a cycle must be able to end in the recorded world through some order of the coordinator\'s internal steps) and evaluates on the recorded worlds: converged at the end of the quiet tail (every eligible target on exactly one shard in normal state, no transfer pending, no undiscovered or oversized target assigned), the last cycle changes nothing, no gap in which a held, discovered target is held by nobody; and on every cycle the coordinator ran: an eligible unplaced target with all shards in sync makes the request exceed the current count.',
     note='Convergence is judged after 10 change-free rounds of (cycle, 3 scrape rounds per shard); eligible targets are generated so that they fit into max-shard shards.',
     tech='TLA+ closed-loop model composed of Rebalance + Sidecar specs; TLC exhaustive small model; trace validation of real closed-loop runs with silent coordinator steps; TLC evaluation of run formulas')
 CHECKS['C06'] = dict(cat='model_checking', ref='5/C06',
